@@ -183,7 +183,9 @@ def run(prop_id: str, tier: str, seed: int) -> vlib.Outcome:
     out.bounds = {
         "pointer_width": [4, 8],
         "list_modes": ["element-wise (is_list_canonical=false)", "canonical for numeric primitives"] if prop_id != "C04" else ["element-wise"],
-        "list_string_map_length": "symbolic, <= %d" % (2 if tier == "quick" else 3),
+        "list_string_map_length": "symbolic, <= 2" if tier == "quick" else
+                                  "symbolic, <= 3 for types nesting list/map/string containers at most twice, <= 2 for deeper nests "
+                                  "(measured: bound 3 on triple nests needs > 5 min per query)",
         "type_depth": "leaves + every constructor at depth 1 + 9 constructors over 23 representatives at depth 2" + (
             " + 120 seeded depth-3 samples" if tier == "thorough" else ""),
         "values": "all values of each enumerated type (bit-vectors; floats as bit patterns incl. NaN payloads)",
